@@ -36,14 +36,24 @@ def run(prog):
                     v = a if a[0] != "mutref" else te.state_in.get(cs.bb, {}).get(a[1])
                     uses.append((cs.callee.name, v, cs.line))
     uses.append(("return", te.ret, None))
+    # does `balanced` itself give its new inner nodes their variable sets (vars = vars(l) ∪ vars(r) at construction)?
+    self_init = False
+    bfn = [g for g in prog.lib_fns if g.name == "balanced" and g.impl_self == D]
+    if len(bfn) == 1:
+        for bb_, agg, line_ in bfn[0].terms.aggs:
+            if agg[1] == "adt" and agg[3] == "Node" and len(agg) > 5 and "vars" in agg[5]:
+                vv = strip(agg[4][agg[5].index("vars")])
+                if mir.is_call(vv, "union") and sum(1 for x in mir.subterms(vv) if mir.is_call(x, "get_vars")) >= 2:
+                    self_init = True
     k = 0
     for what, v, line in uses:
         if not any(mir.is_call(x, "balanced") for x in mir.subterms(v)):
             continue
         k += 1
-        ok = has_mut(v, "init_vars")
+        ok = has_mut(v, "init_vars") or self_init
         out.append(inst("DTR", "%s:DTR1:%s" % (fn.npath, what), OK if ok else VIOLATION, fn, line,
-                        "composition is initialised (init_vars) before %s" % what if ok else
+                        ("composition is initialised (init_vars) before %s" % what if not self_init else
+                         "`balanced` builds every inner node with vars = vars(l) ∪ vars(r)") if ok else
                         "a tree composed by `balanced` reaches %s without init_vars: its new inner nodes keep an empty variable "
                         "set instead of the union of their children's (disconnected components, empty clauses)" % what))
     if k < 2:
